@@ -62,8 +62,8 @@ def run(res, tier, seed, replay):
         recs, _ = vlib.run_harness(b, ["--replay", tmp])
         cases = recs
     else:
-        n = 1000 if tier == "quick" else 30000
-        cases, _ = vlib.run_harness(b, ["--seed", str(seed), "--count", str(n), "--maxops", "60" if tier == "quick" else "200"])
+        n = 1000 if tier == "quick" else 8000
+        cases, _ = vlib.run_harness(b, ["--seed", str(seed), "--count", str(n), "--maxops", "60" if tier == "quick" else "120"])
         # corpus first
         cdir = os.path.join(vlib.ROOT, "corpus", "C19")
         if os.path.isdir(cdir):
@@ -105,6 +105,7 @@ def run(res, tier, seed, replay):
     res.rule = ("seeded operation sequences (insert/unset/get/len/is_empty/iter/serde round-trip through serde_json) over id "
                 "classes dense / chunk boundary / multi-chunk / sparse, initial capacities {0,1,129,random}; non-trivial = "
                 "sequence that inserts beyond the first chunk, unsets and iterates")
-    res.extra.update({"op_histogram": kinds, "in_coq_examples": len(examples), "in_coq_accepted": n_ok})
+    res.extra.update({"op_histogram": kinds, "in_coq_examples": len(examples), "in_coq_accepted": n_ok,
+                      "in_coq_not_evaluated_timeout": coqreplay.LAST_SKIPPED["timeout"]})
     return res.finish(CHECKER, vlib.TRUSTED_BASE,
                       ["values are u32 in the harness and N in the model", "serde format compared literally (JSON array of options)"])
